@@ -1090,6 +1090,9 @@ package p9p
 //@ func (*decoder).decode
 //@ inline
 //@ recursion 16
+// Twalk / Rwalk are decoded through lists of pointers into slices: not followed by the engine. Every contract that inlines
+// decode must show that these kinds do not occur on its paths (an obligation at this line); they are then not explored.
+//@ at "rv := reflect.New(reflect.TypeOf(message))" assert excluded_lists: !typeis(message, MessageTwalk) && !typeis(message, MessageRwalk)
 
 //@ func (codec9p).Marshal
 //@ property C01
@@ -1269,6 +1272,7 @@ package p9p
 //@ ensures manual_code: result == 127
 
 //@ func newMessage
+//@ inline
 //@ property C01 C04
 //@ use wirekind
 //@ ensures table: err == nil ==> kindOf(result0) == typ
@@ -1289,3 +1293,32 @@ package p9p
 //@ requires 0 <= n && n <= m && m <= len(s)
 //@ ensures blen(namesUpto(s, n)) <= blen(namesUpto(s, m))
 //@ loop 1 invariant n <= i && i <= m && blen(namesUpto(s, n)) <= blen(namesUpto(s, i))
+
+// Consistency of the abstract wire facts used by the framing layer (axioms of group wire: wireSize_Twrite, wireSize_Tread,
+// wireSize_Rread, dec_twrite) with the manual's layout: the same statements about blen(layout(f)) are theorems.
+//@ lemma [wirecheck from wirekind wiredef bytes noassoc] [C01] layout_len_Twrite: forall f Fcall :: {layout(f)} typeis(f.Message, MessageTwrite) && len(f.Message.(MessageTwrite).Data) >= 0 ==> blen(layout(f)) == 19 + len(f.Message.(MessageTwrite).Data)
+//@ lemma [wirecheck from wirekind wiredef bytes noassoc] [C01] layout_len_Tread: forall f Fcall :: {layout(f)} typeis(f.Message, MessageTread) ==> blen(layout(f)) == 19
+//@ lemma [wirecheck from wirekind wiredef bytes noassoc] [C01] layout_len_Rread: forall f Fcall :: {layout(f)} typeis(f.Message, MessageRread) && len(f.Message.(MessageRread).Data) >= 0 ==> blen(layout(f)) == 7 + len(f.Message.(MessageRread).Data)
+//@ lemma [wirecheck from wirekind wiredef bytes noassoc] [C01] layout_len_min: forall f Fcall :: {layout(f)} typeis(f.Message, MessageRflush) ==> blen(layout(f)) == 3
+
+// ---------------------------------------------------------------- decoding untrusted bytes (C04)
+//
+// Unmarshal of an arbitrary byte string into an *Fcall: every panic site on every path is an obligation; the bytes
+// allocated by data-sized allocations (make with a non-constant size, string(b)) are bounded linearly in len(data);
+// a successful decode consumed exactly the manual's layout of the value it produced (so that re-encoding and
+// decoding again gives the same value, by the C01 round trip). Type bytes Twalk (110) and Rwalk (111) are excluded:
+// their decoders build lists of pointers into slices, which the engine's memory model cannot follow (see DESIGN.md).
+//@ func (codec9p).Unmarshal#any
+//@ property C04
+//@ use wirekind wiredefr bytes bytes_split noassoc
+//@ dyn v : *Fcall
+//@ let V = (*v.(*Fcall))
+//@ let T0 = dec1(btake(bytes(data), 1))
+//@ requires v.(*Fcall) != nil
+//@ requires len(data) >= 1 ==> T0 != 110 && T0 != 111
+//@ ensures proportionate: dynalloc() - old(dynalloc()) <= 4 * len(data)
+//@ let STAT = (typeis(V.Message, MessageRstat) || typeis(V.Message, MessageTwstat))
+//@ ensures well_typed: err == nil ==> V.Type == kindOf(V.Message) && (!STAT ==> representable(V))
+// Stat records are accepted even when their size prefixes disagree with their content (the decoder does not compare
+// them), so for Rstat/Twstat the input need not be the canonical layout of the result; for all other kinds it is:
+//@ ensures consumed_layout: err == nil && !STAT ==> blen(layout(V)) <= len(data) && btake(old(bytes(data)), blen(layout(V))) == layout(V)
